@@ -13,11 +13,16 @@ Definition exn_code (e : exn) : Z :=
   match e with
   | ValueError => 1 | SUITError => 2 | GeneratorError => 3 | OverflowError => 4 | SignerError => 5
   | IndexError => 6 | TypeError => 7 | KeyError => 8 | AttributeError => 9 | StructError => 10
-  | NotImplementedError => 11 | RecursionLimit => 12
+  | NotImplementedError => 11 | RecursionLimit => 12 | OSErr => 14 | OtherError => 15 | Unsupported => 16
+  | Need _ _ => 13
   end.
 
 Definition reply {A} (f : A -> cbor) (r : res A) : cbor :=
-  match r with Ok a => CArray [CUint 0; f a] | Raise e => CArray [CUint 1; CUint (exn_code e)] end.
+  match r with
+  | Ok a => CArray [CUint 0; f a]
+  | Raise (Need k a) => CArray [CUint 1; CUint 13; CText k; CArray (map CBytes a)]
+  | Raise e => CArray [CUint 1; CUint (exn_code e)]
+  end.
 Definition bad_request : cbor := CArray [CUint 2].
 
 Definition as_int (c : cbor) : option Z :=
